@@ -71,7 +71,7 @@ static void crash_handler(int sig, siginfo_t* si, void* uc) {
   (void)uc;
   static volatile int entered = 0;
   if (__atomic_exchange_n(&entered, 1, __ATOMIC_ACQ_REL)) { _exit(12); }
-  char buf[2400];
+  char buf[2800];
   uintptr_t a = (uintptr_t)(si ? si->si_addr : 0);
   int in_touch = (vf_in_harness && a >= vf_touch_lo && a < vf_touch_hi);
   char bt[600]; bt[0] = 0;
@@ -89,7 +89,7 @@ static void crash_handler(int sig, siginfo_t* si, void* uc) {
     s += k; if (*s == ',') s++;
   }
   /* the allocator's last diagnostic messages (assertion text etc.), made JSON safe */
-  char msgs[500]; size_t mlen = strlen(vf_last_msgs); const char* ms = vf_last_msgs + (mlen > sizeof(msgs) - 1 ? mlen - (sizeof(msgs) - 1) : 0);
+  char msgs[700]; size_t mlen = strlen(vf_last_msgs); const char* ms = vf_last_msgs + (mlen > sizeof(msgs) - 1 ? mlen - (sizeof(msgs) - 1) : 0);
   size_t mi = 0; for (; ms[mi] && mi < sizeof(msgs) - 1; mi++) { char ch = ms[mi]; msgs[mi] = (ch == '"' || ch == '\\') ? '\'' : ((unsigned char)ch < 0x20 || (unsigned char)ch >= 0x7f) ? ' ' : ch; } msgs[mi] = 0;
   n += snprintf(buf + n, sizeof(buf) - (size_t)n,
      "],\"detail\":\"signal %d addr 0x%lx in_harness=%d touch=[0x%lx,0x%lx) bt=%s msgs=%s\",\"op\":%llu,\"what\":\"%s\"},\"crash\":1}\n",
@@ -130,8 +130,9 @@ int vf_err_seen(int code) {
 void vf_err_reset(void) { vf_err_count = 0; g_msg_len = 0; vf_last_msgs[0] = 0; }
 
 const char* vf_getarg(int argc, char** argv, const char* name, const char* dflt) {
-  for (int i = 1; i + 1 < argc; i++) if (strcmp(argv[i], name) == 0) return argv[i + 1];
-  return dflt;
+  const char* v = dflt;   /* the last occurrence wins */
+  for (int i = 1; i + 1 < argc; i++) if (strcmp(argv[i], name) == 0) v = argv[i + 1];
+  return v;
 }
 long long vf_getarg_ll(int argc, char** argv, const char* name, long long dflt) {
   const char* s = vf_getarg(argc, argv, name, NULL);
